@@ -50,5 +50,20 @@ FoldSource(W, H, mx, line, x, y) ==
         xx == x % (W + line)
         yy == H - mx * (i + 1) + y IN
     IF xx >= W \/ yy < 0 \/ yy >= H THEN <<>> ELSE <<xx, yy>>
+(* PFDrawBeatLines(divisions): one horizontal line per 1/d beat.  The chart has one tempo point at the first note with a     *)
+(* beat length of bl ms (d divides bl); the lines of division d stand at first + k * bl/d for every k with                 *)
+(* k * bl/d < last - first (BpmList.snap_offsets: sections are end-exclusive, `last` is the last START time); a line is    *)
+(* the row get_pos(t) from x = 0 to the right edge of the last column (clipped to the canvas).  Coarser divisions are      *)
+(* drawn last, so a row shows the colour of the smallest division that has a line on it.                                   *)
+FirstT(notes) == MinOf({ n.t : n \in Range(notes) })
+LastT(notes) == MaxOf({ n.t : n \in Range(notes) })
+LineTimes(notes, bl, d) ==
+    LET step == bl \div d  span == LastT(notes) - FirstT(notes) IN
+    { FirstT(notes) + k * step : k \in { j \in 0..(span \div step) : j * step < span } }
+LineRow(notes, cfg, t) == PosY(notes, cfg, t)
+LineRows(notes, cfg, bl, d) == { LineRow(notes, cfg, t) : t \in LineTimes(notes, bl, d) }
+VisibleRows(notes, cfg, bl, divs) == { y \in UNION { LineRows(notes, cfg, bl, d) : d \in divs } : y >= 0 /\ y < CanvasH(notes, cfg) }
+LineXMax(notes, cfg) == LET r == Keys(notes) * (cfg.nw + cfg.clw)  w == CanvasW(notes, cfg) IN IF r < w THEN r ELSE w - 1
+RowDivision(notes, cfg, bl, divs, y) == MinOf({ d \in divs : y \in LineRows(notes, cfg, bl, d) })
 Inside(notes, cfg, b) == b.x0 >= 0 /\ b.y0 >= 0 /\ b.x0 + b.w <= CanvasW(notes, cfg) /\ b.y0 + b.h <= CanvasH(notes, cfg)
 =============================================================================
